@@ -110,17 +110,17 @@ def load_known(pid):
 REPO = os.environ.get("VERIF_REPO", "/repo")      # the tree under test; the registered commands always use /repo
 
 
-def build_driver(work):
+def build_driver(work, race=False):
     gosum = os.path.join(HARNESS, "go.sum")
     want = open(os.path.join(REPO, "go.sum")).read()
-    binp = os.path.join(work, "driver")
+    binp = os.path.join(work, "driver_race" if race else "driver")
     if REPO == "/repo":
         if not os.path.exists(gosum) or open(gosum).read() != want:
             tmp = gosum + f".{os.getpid()}.tmp"
             with open(tmp, "w") as f:
                 f.write(want)
             os.replace(tmp, gosum)
-        cmd = ["go", "build", "-tags", "verif", "-o", binp, "."]
+        cmd = ["go", "build"] + (["-race"] if race else []) + ["-tags", "verif", "-o", binp, "."]
     else:
         # testing a scratch worktree (seeded changes): same harness sources, alternate module file pointing at that tree
         alt = os.path.join(work, "alt.mod")
@@ -128,26 +128,54 @@ def build_driver(work):
             f.write(open(os.path.join(HARNESS, "go.mod")).read().replace("=> /repo", "=> " + REPO))
         with open(os.path.join(work, "alt.sum"), "w") as f:
             f.write(want)
-        cmd = ["go", "build", "-modfile=" + alt, "-tags", "verif", "-o", binp, "."]
+        cmd = ["go", "build"] + (["-race"] if race else []) + ["-modfile=" + alt, "-tags", "verif", "-o", binp, "."]
     p = run(cmd, cwd=HARNESS, env=GOENV, timeout=900)
     if p.returncode != 0:
         raise Infra(f"driver does not build against {REPO}'s working tree:\n" + tail(p.stdout))
     return binp
 
 
-def drive(binp, work, driver, cases_path, out_path, seed, tier, extra=(), timeout=3600):
+def drive(binp, work, driver, cases_path, out_path, seed, tier, extra=(), timeout=3600, race_log=None):
     scratch = os.path.join(work, "sandbox")
     os.makedirs(scratch, exist_ok=True)
     cmd = [binp, "-prop", driver, "-out", out_path, "-seed", str(seed), "-tier", tier, "-scratch", scratch] + list(extra)
     if cases_path:
         cmd += ["-cases", cases_path]
-    p = run(cmd, cwd=work, env=GOENV, timeout=timeout)
+    env = dict(GOENV)
+    if race_log:
+        env["GORACE"] = f"halt_on_error=0 exitcode=0 log_path={race_log}"
+    p = run(cmd, cwd=work, env=env, timeout=timeout)
     with open(os.path.join(work, f"driver.{driver}.out"), "a") as f:
         f.write(p.stdout)
     if p.returncode != 0:
         raise Infra(f"driver {driver} failed (rc={p.returncode}):\n" + tail(p.stdout))
     shutil.rmtree(scratch, ignore_errors=True)
     return p.stdout
+
+
+RACE_HDR = re.compile(r"^(Write|Read|Previous write|Previous read|Atomic write|Atomic read|Previous atomic write|Previous atomic read) (at|of) ", re.M)
+
+
+def library_races(race_log):
+    """data-race reports of the Go race detector in which BOTH conflicting accesses sit in the library under test (the first
+    frame of each access stack lies in REPO); races inside the harness's own mocks are not the library's business"""
+    out = []
+    for path in sorted(glob.glob(race_log + ".*")):
+        text = open(path, errors="replace").read()
+        for rep in text.split("WARNING: DATA RACE")[1:]:
+            rep = rep.split("==================")[0]
+            tops = []
+            blocks = RACE_HDR.split(rep)
+            # RACE_HDR.split keeps the two groups; access bodies are every third element starting at index 3
+            for body in blocks[3::3]:
+                lines = [l.strip() for l in body.splitlines()[1:] if l.strip()]
+                # frames come as pairs (function, file:line); the first frame outside the Go runtime / standard library decides
+                frames = [(lines[i], lines[i + 1]) for i in range(0, len(lines) - 1, 2) if lines[i + 1].startswith("/")]
+                top = next(((f, l) for f, l in frames if "/src/runtime/" not in l and "/go/src/" not in l and not re.match(r"^/usr/lib/go[^/]*/src/", l)), ("", ""))
+                tops.append(top)
+            if len(tops) >= 2 and all(loc.startswith(REPO.rstrip("/") + "/") for _, loc in tops[:2]):
+                out.append(dict(func=tops[0][0].split("(")[0], report=("WARNING: DATA RACE" + rep)[:6000]))
+    return out
 
 
 # ---------------------------------------------------------------- helpers for plans
@@ -328,7 +356,14 @@ def run_phase(ctx, ph):
     extra = d.get("extra", lambda t, s: [])(tier, seed)
     if ctx.args.lie:
         extra = list(extra) + ["-lie", ctx.args.lie]
-    out = drive(ctx.binp, work, d["driver"], cases_path, trace_path, seed, tier, extra=extra, timeout=d.get("timeout", 3000))
+    binp, race_log = ctx.binp, None
+    if d.get("race"):
+        # this phase runs concurrent work on shared state: the driver is built with the Go race detector, and a data race
+        # between two accesses inside the library is reported like a deviation (rule "data-race")
+        if not getattr(ctx, "binp_race", None):
+            ctx.binp_race = build_driver(work, race=True)
+        binp, race_log = ctx.binp_race, os.path.join(work, f"race_{name}")
+    out = drive(binp, work, d["driver"], cases_path, trace_path, seed, tier, extra=extra, timeout=d.get("timeout", 3000), race_log=race_log)
     nlines = count_lines(trace_path)
     if nlines == 0:
         raise Infra(f"{name}: driver produced an empty trace")
@@ -379,6 +414,17 @@ def run_phase(ctx, ph):
             lines_by_id.setdefault((r["id"], r.get("variant")), r)
     for b in bads:
         ctx.bads.append((name, b, lines_by_id.get((b["id"], b.get("variant")))))
+    if race_log:
+        races = library_races(race_log)
+        seen_funcs = set()
+        for r in races:
+            if r["func"] in seen_funcs:
+                continue
+            seen_funcs.add(r["func"])
+            ctx.bads.append((name, dict(id=0, variant="race-detector", rules=["data-race"], why=r["func"], expected="no data race between accesses inside the library",
+                                        got=r["report"]), None))
+        phase_ev["data_races_in_library"] = len(races)
+        log(f"{name}: race detector: {len(races)} report(s) with both accesses inside the library")
     # evidence: counts and samples
     ctx.ev["traces"] += nlines - len(bads)
     ctx.ev["evaluations"] += nlines
@@ -518,6 +564,11 @@ def do_replay(ctx, plan, path):
     rep = json.load(open(path))
     phase = next(p for p in plan["phases"] if p["name"] == rep["phase"])
     line = rep["trace_line"]
+    if line is None:
+        # a data-race report: there is no single case to run again; the report itself is the record
+        print(rep["deviation"].get("got", "")[:6000])
+        print("replay: a data race is schedule-dependent; run the check again to look for it: ./check", ctx.pid, "--only-phase", rep["phase"])
+        return 0
     cases_path = os.path.join(ctx.work, "cases_replay.ndjson")
     with open(cases_path, "w") as f:
         f.write(json.dumps({"id": line["id"], "in": line["in"]}) + "\n")
